@@ -221,4 +221,6 @@ func TestRegressPinnedFree(t *testing.T) {
 		Final:   []listSpec{{Kind: "issued", Ref: 0, Max: 1000}, {Kind: "rel", Ref: 3, DSec: -1, Pay: "zero", Max: 3}},
 	}
 	checkFree(t, c)
+	c.Shared = true
+	checkFree(t, c)
 }
